@@ -25,9 +25,9 @@ ASSUMPTIONS = C.COMMON_ASSUMPTIONS + [
 TRUSTED = C.COMMON_TRUSTED
 
 
-TRANSLATE_FALLBACK = C.TRANSLATE_FALLBACK + ("; SAVE-<n> ids: the driver checks the ids of produce_initial_state against SAVE-<index> on every "
-                                             "replay; the record terminator and the parser shape: framed-number cases against the extracted model and "
-                                             "the real state file cut at every byte; the load_state buffer: the 250000-byte record probe must load")
+TRANSLATE_FALLBACK = C.TRANSLATE_FALLBACK + ("; C05 soft pins: the record terminator of write_requests_to_file and the shape of parse_several_requests, "
+                                             "both observed: the real state file is parsed back by the real parser on every replay and cut at every byte, "
+                                             "and framed-number cases (good, empty, garbage, cut) are compared with the extracted model")
 
 
 def translate():
@@ -40,9 +40,9 @@ def translate():
     try:
         prod = C.fn_body(src, "produce_initial_state")
         if not (re.search(r"\.enumerate\(\)", prod) and re.search(r'format!\("SAVE-\{\w*\}"', prod)):
-            fails.append("unreadable: produce_initial_state: numbering of the requests not recognised; assumed SAVE-<usize index>")
+            fails.append("produce_initial_state: numbering of the requests not recognised; the model assumes SAVE-<usize index>")
     except C.TieError:
-        fails.append("unreadable: produce_initial_state not found; assumed ids SAVE-<usize index>")
+        fails.append("produce_initial_state not found; the model assumes ids SAVE-<usize index>")
     # 2. counter of write_requests_to_file
     try:
         wr = C.fn_body(src, "write_requests_to_file")
@@ -64,7 +64,7 @@ def translate():
             elif re.search(r"\.enumerate\(\)", wr):
                 ok = (True, "usize")
         if ok is None:
-            fails.append("unreadable: write_requests_to_file: the SAVE-<n> counter not recognised; assumed usize")
+            fails.append("write_requests_to_file: the SAVE-<n> counter not recognised; the model assumes usize")
         elif not ok[0]:
             fails.append("write_requests_to_file numbers the requests with a %s counter (model: usize, ids distinct for every length)" % ok[1])
         # 3. record terminator
@@ -90,22 +90,24 @@ def translate():
             expr = d.group(1) if d else None
         flat = re.sub(r"\s+", "", expr or "")
         if not flat:
-            fails.append("unreadable: load_state: buffer capacity not recognised; the driver replicates max(200000, 2*max_command_buffer_size)")
+            fails.append("load_state: buffer capacity not recognised; the driver replicates max(200000, 2*max_command_buffer_size)")
         elif re.fullmatch(r"[0-9_]+", flat):
             fails.append("load_state parses through a fixed %s-byte buffer (the driver replicates max(200000, 2*max_command_buffer_size))" % flat)
         elif not (re.search(r"200_?000", flat) and "max_command_buffer_size" in flat and re.search(r"saturating_mul\(2\)|\*2", flat)):
-            fails.append("unreadable: load_state: buffer capacity `%s` not recognised; the driver replicates max(200000, 2*max_command_buffer_size)" % flat[:80])
+            fails.append("load_state: buffer capacity `%s` is not max(200000, 2*max_command_buffer_size), which the driver replicates" % flat[:80])
     except C.TieError:
-        fails.append("unreadable: load_state not found; the driver replicates its parse loop")
+        fails.append("load_state not found; the driver replicates its parse loop")
     # 5. shape of the state-file parser
     par = C.strip_comments(open(C.os.path.join(vlib.REPO, "command/src/parser.rs")).read())
     try:
         body = re.sub(r"\s+", "", C.fn_body(par, "parse_several_requests"))
         body = re.sub(r"\b(?:nom::)?(?:combinator|multi|sequence|bytes::streaming|bytes::complete|character::complete)::", "", body)
         body = body.replace(",)", ")")
-        want = 'many0(complete(terminated(map_res(is_not("\\0"),parse_one_request),char(' + "'\\0'" + '))))(input)'
-        if want not in body:
+        m = re.search(r"""many0\(complete\(terminated\(map_res\(is_not\("([^"]*)"\),parse_one_request\),char\('([^']*)'\)\)\)\)\(input\)""", body)
+        if not m:
             fails.append("unreadable: parser.rs: parse_several_requests is not recognised as many0(complete(terminated(map_res(is_not(NUL), from_slice), char(NUL))))")
+        elif m.group(1) != "\\0" or m.group(2) != "\\0":
+            fails.append("parser.rs: parse_several_requests splits on is_not(%r) / char(%r) (model: NUL)" % (m.group(1), m.group(2)))
     except C.TieError:
         fails.append("unreadable: parser.rs: parse_several_requests not found")
     return fails
